@@ -22,11 +22,21 @@ void trap(Trap t) { (void)t; abort(); }
 #define MODE 0
 #endif
 #define INIT 1
+#ifdef BIGMEMORY
+/* a memory of several thousand pages, grown in a few large steps past 4096 pages while the other threads are at work */
+#define MAXP 5000
+#define PER 6
+#define NADD 300000
+static const U32 DELTA[4] = {150, 220, 280, 100};
+#else
 #define MAXP 300
 #define PER 8
-#define NADD 20000
-#define NT 8
 static const U32 DELTA[4] = {1, 17, 24, 3};
+#endif
+#ifndef NADD
+#define NADD 20000
+#endif
+#define NT 8
 static smInstance root; static smInstance* inst[NT];
 static pthread_barrier_t bar;
 static volatile int stop;
